@@ -34,6 +34,13 @@ type c01Msg struct {
 	Type       int      `json:"header_type"`
 	Pkgs       []c01Pkg `json:"packages"`
 	Split      string   `json:"split"` // "sendpackage" (last via SendPackage) | "sendremaining" (all queued, then SendRemainingPackets)
+	// AbortedBefore: before this message a short message is queued with a
+	// live context and flushed with a cancelled one (a request given up by
+	// the caller); its bytes must not show up in this message
+	AbortedBefore bool `json:"aborted_message_before,omitempty"`
+	// OnChannel0: with a logical channel in the case, send this message on
+	// channel 0 instead (the two channels of one connection alternate)
+	OnChannel0 bool `json:"on_channel_0,omitempty"`
 	K, D       int      `json:"-"`
 }
 
@@ -213,7 +220,7 @@ func c01Run(c *Ctx, cs c01Case) {
 	}
 	k.tr.TakeWrites()
 	ps := 512
-	nextNr := -1
+	nextNrBy := map[uint16]int{}
 	for mi, m := range cs.Messages {
 		if m.PacketSize != 0 && m.PacketSize != ps {
 			// the server announces a new packet size between two messages
@@ -237,6 +244,26 @@ func c01Run(c *Ctx, cs c01Case) {
 			return
 		}
 		pkgs := c01Build(m.Pkgs, byte(mi))
+		ch := ch
+		chanID := chanID
+		if cs.Logical && m.OnChannel0 {
+			ch, chanID = k.ch, 0
+		}
+		if m.AbortedBefore {
+			if err := ch.QueuePackage(context.Background(), &tds.LanguagePackage{Cmd: "given up"}); err != nil {
+				r.Inconclusive("QueuePackage of the aborted message failed: %v", err)
+				return
+			}
+			cctx, ccancel := context.WithCancel(context.Background())
+			ccancel()
+			if err := ch.SendRemainingPackets(cctx); err == nil {
+				r.Count("aborted_flush_returned_nil", 1)
+			}
+			if w := k.tr.TakeWrites(); len(w) != 0 {
+				r.Count("aborted_flush_wrote_packets", int64(len(w)))
+			}
+			r.Count("aborted_messages", 1)
+		}
 		ch.CurrentHeaderType = tds.PacketHeaderType(m.Type)
 		ctx := context.Background()
 		var sendErr error
@@ -337,11 +364,11 @@ func c01Run(c *Ctx, cs c01Case) {
 				return
 			}
 			if chanID > 0 {
-				if nextNr >= 0 && int(h.PacketNr) != nextNr {
+				if nextNr, ok := nextNrBy[chanID]; ok && int(h.PacketNr) != nextNr {
 					fail("packet-number-not-consecutive", fmt.Sprintf("packet %d has number %d, want %d", i, h.PacketNr, nextNr))
 					return
 				}
-				nextNr = (int(h.PacketNr) + 1) % 256
+				nextNrBy[chanID] = (int(h.PacketNr) + 1) % 256
 			}
 			got = append(got, w.Data[8:]...)
 		}
@@ -380,6 +407,8 @@ func c01GenMsg(rnd *rt.Rand, ps, k, d int) c01Msg {
 	m := c01Msg{PacketSize: ps, Type: c01Types[rnd.Intn(len(c01Types))], K: k, D: d}
 	m.Pkgs = c01Compose(rnd, L)
 	m.Split = []string{"sendpackage", "sendremaining"}[rnd.Intn(2)]
+	m.AbortedBefore = rnd.Chance(1, 8)
+	m.OnChannel0 = rnd.Chance(1, 3)
 	return m
 }
 
